@@ -158,6 +158,6 @@ void prop(DP &dp, const ref::Bytes &sched, Ctx &ctx) {
 PropReg reg({"C14", prop,
              "non-trivial: a valid configuration with >=2 boards and >=3 populated section kinds, or a single-fault configuration; "
              "distinct = distinct (fault class, file contents); per-fault-class counters reported",
-             900, 0, false});
+             900, 0, true});
 
 }  // namespace
